@@ -83,10 +83,10 @@ func cfg() prog.GenConfig {
 	return prog.GenConfig{
 		Buckets: 2, Keys: 4, MinOps: 4, MaxOps: 22,
 		Weights: map[string]int{
-			prog.OpCreateBucket: 2, prog.OpDeleteBucket: 1, prog.OpSetVersioning: 2, prog.OpPut: 14, prog.OpCopy: 5,
-			prog.OpMpuSeq: 4, prog.OpMpuCreate: 1, prog.OpMpuPart: 2, prog.OpMpuPartCopy: 1, prog.OpMpuComplete: 1, prog.OpMpuAbort: 1,
+			prog.OpCreateBucket: 2, prog.OpDeleteBucket: 1, prog.OpSetVersioning: 2, prog.OpPut: 14, prog.OpCopy: 6,
+			prog.OpMpuSeq: 4, prog.OpMpuCreate: 1, prog.OpMpuPart: 2, prog.OpMpuPartCopy: 3, prog.OpMpuComplete: 1, prog.OpMpuAbort: 1,
 			prog.OpDelete: 4, prog.OpDeleteObjects: 2, prog.OpTransition: 2, prog.OpPutTags: 2, prog.OpDeleteTags: 1,
-			prog.OpHead: 3, prog.OpGet: 4, prog.OpList: 1,
+			prog.OpHead: 5, prog.OpGet: 7, prog.OpList: 1,
 		},
 		Classes: []string{"STANDARD", "GLACIER", "STANDARD_IA"}, Meta: true, Tags: true, Versions: true, Conditions: true, SrcConds: true,
 		Boundaries: []int{1024, 65536}, MaxBody: 70000, Manifests: true,
@@ -98,7 +98,22 @@ var queryKinds = []string{"listObjects", "listObjects", "listVersions", "listVer
 func gen38(t *rapid.T, env *ev.Env) Case {
 	c := Case{Stack: rapid.SampledFrom([]string{"P2", "P1"}).Draw(t, "stack")}
 	g := cfg()
+	// half of the cases concentrate on one key (long histories, conditions and version
+	// references that hit), the other half spread over the key universe (listings)
+	g.HotKey = rapid.Bool().Draw(t, "hotKey")
 	ops := g.Gen(t)
+	// three unconditional puts right after the buckets exist, so that reads, copies, conditions and
+	// version references of the program find objects (a random program alone mostly misses)
+	var seedPuts []prog.Op
+	for j := 0; j < 3; j++ {
+		p := g.GenOp(t, prog.OpPut)
+		p.IfMatch, p.IfNoneMatchStar, p.Tags = "", false, nil
+		if j == 0 {
+			p.B, p.K = 0, 0
+		}
+		seedPuts = append(seedPuts, p)
+	}
+	ops = append(append(append([]prog.Op(nil), ops[:2]...), seedPuts...), ops[2:]...)
 	for i := range ops {
 		op := ops[i]
 		fixExpires(&op)
@@ -144,6 +159,18 @@ func gen38(t *rapid.T, env *ev.Env) Case {
 		}
 		if (op.IfMatch != "" || op.IfNoneMatchStar || op.SrcCond != "") && rapid.Bool().Draw(t, "dropCond") {
 			op.IfMatch, op.IfNoneMatchStar, op.SrcCond = "", false, ""
+		}
+		// CopyObject with ReplaceTags trips KF-C38-6 and a conditional DeleteObjects entry KF-C38-8 (both
+		// end-case): 3 in 4 / 1 in 2 lose the trigger in the generator so the search continues behind them
+		if op.Kind == prog.OpCopy && op.ReplaceTags && rapid.IntRange(0, 3).Draw(t, "keepReplTags") != 0 {
+			op.ReplaceTags = false
+		}
+		if op.Kind == prog.OpDeleteObjects {
+			for j := range op.Entries {
+				if op.Entries[j].IfMatch != "" && rapid.Bool().Draw(t, "dropEntryCond") {
+					op.Entries[j].IfMatch = ""
+				}
+			}
 		}
 		c.Steps = append(c.Steps, Step{Op: &op})
 		if i < 2 || rapid.IntRange(0, 3).Draw(t, "query?") != 0 {
@@ -1030,12 +1057,14 @@ func TestC38(t *testing.T) {
 	ev.Main(t, ev.Spec[Case]{
 		ID:    "C38",
 		Level: "exploration",
-		Rule: "programs of 4-22 generated ops (buckets, versioning, puts with metadata/tags/class/conditions, copies, multipart incl. UploadPartCopy and manifests, deletes incl. versioned and multi-object, tagging, transitions, head/get incl. versions) interleaved with queries " +
+		Rule: "programs of 4-22 generated ops (buckets, versioning, puts with metadata/tags/class/conditions incl. zero-length bodies, copies incl. source versions and source conditions, multipart incl. UploadPartCopy, zero-length parts, manifests and conditional complete, deletes incl. named versions and conditions, DeleteObjects (each key once) incl. versions and ETag conditions, tagging incl. named versions, plain transitions, head/get incl. named versions) interleaved with queries " +
 			"(ListObjects / ListObjectVersions walked page by page with MaxKeys 1-3, prefix, delimiter; GetObjectTagging; ListMultipartUploads; ListParts; HeadBucket; versioning) executed through S3ClientStorage -> aws-sdk-go-v2 -> HTTP -> SetupServer (SigV4) -> storage A and directly on twin storage B; " +
 			"non-trivial = a multipart upload completed, or a delete created/removed a version or marker, or a listing walk took >=2 pages; distinct = distinct case JSON",
 		Assumptions: []string{
-			"the directly driven twin storage B is the specification; AppendObject (ErrNotImplemented) is skipped; version ids are compared as null/non-null and by first-occurrence index",
+			"the directly driven twin storage B is the specification; AppendObject, ranged CopyObject and transitions of a named version (ErrNotImplemented: documented-unsupported) are not generated; version ids are compared as null/non-null",
 			"Expires values are well-formed IMF-fixdates (the S3 protocol carries them as HTTP dates)",
+			"where the storage itself answers a listing page with more than MaxKeys entries the walks are compared without their page structure (the endpoint cuts such a page at MaxKeys)",
+			"version ids S3ClientStorage does not return (KF-C38-5) are read from storage A directly, for the harness' bookkeeping only",
 		},
 		Gen: gen38,
 		Run: runCase,
